@@ -85,6 +85,12 @@ def fitted_model(rng, nmax=9, mmax=5, kinds=("generic",), optimizers=("QR", "CCQ
     ns_req = None if u < 0.3 else (int(rng.integers(1, mm)) if (u < 0.7 and mm >= 2) else int(rng.integers(1, n + 1)))
     if bk == "Identity" and rng.random() < 0.4:
         X = np.round(X * 8).astype(np.int64)          # the same data in integer units (entries are multiples of 1/8), held in an integer array
+    elif bk == "Identity" and rng.random() < 0.45:
+        X = X * 2.0 ** -float(rng.integers(34, 45))  # the same data in tiny units (exact rescaling): a basis whose entries are ~1e-10
+        kind = kind + "*tiny"
+        if ok == "CCQR":
+            ocfg["sensor_costs"] = [0.0] * n
+            ok = ok
     model = SSPOR(basis=impl.make_basis({"kind": bk, "n_basis_modes": mm}), optimizer=impl.make_optimizer(ocfg), n_sensors=ns_req)
     impl.quiet(model.fit, X, quiet=True, seed=int(rng.integers(0, 100)))
     cfg = {"X": X.tolist(), "matrix_kind": kind, "basis": {"kind": bk, "n_basis_modes": mm}, "optimizer": ocfg, "n_sensors_at_construction": ns_req,
